@@ -90,6 +90,22 @@ func c05Eval(c *mon.Ctx, hw *mon.HangWatch, inf *mon.Inflight, w int, k *c05Case
 	if !reflect.DeepEqual(ms1, ms2) {
 		c.Violation("mapstr-not-idempotent", fmt.Sprintf("two ToMapStr() calls differ: %v vs %v; input %q", ms1, ms2, clipStr(text, 300)), k)
 	}
+	// "repeated calls ... on the same message return the same result" also when OTHER messages were parsed and
+	// decoded in between: the previous message of this worker (kept with a deep copy of its first Data() whose
+	// strings do not share memory with the library's) is asked again now
+	if prev := c05Prev[w%len(c05Prev)]; prev != nil {
+		var again map[string]string
+		if p, _ := mon.Try(func() { again, _ = prev.m.Data() }); p == nil {
+			c.Add("earlier_messages_asked_again_after_other_messages", 1)
+			if !reflect.DeepEqual(again, prev.data) {
+				c.Violation("data-changed-by-later-message", fmt.Sprintf("Data() of an earlier message changed after another message was parsed and decoded: was %v, now %v; earlier input %q; later input %q", prev.data, again, clipStr(prev.text, 300), clipStr(text, 300)), &c05PairCase{Kind: "pair", First: prev.text, FirstType: prev.typ, FirstLine: prev.line, Second: text, SecondType: k.Type, SecondLine: k.Line})
+			}
+		}
+	}
+	c05Prev[w%len(c05Prev)] = nil
+	if e1 == nil {
+		c05Prev[w%len(c05Prev)] = &c05Retained{m: m, data: cloneMap(d1), text: strings.Clone(text), typ: k.Type, line: k.Line}
+	}
 	if e1 != nil {
 		c.Add("data_errors_observed", 1)
 		if got, _ := ms1["error"].(string); got != e1.Error() {
@@ -107,6 +123,108 @@ func c05Eval(c *mon.Ctx, hw *mon.HangWatch, inf *mon.Inflight, w int, k *c05Case
 		}
 	}
 	return returned
+}
+
+type c05Retained struct {
+	m    *auparse.AuditMessage
+	data map[string]string
+	text string
+	typ  uint16
+	line bool
+}
+
+var c05Prev [512]*c05Retained
+
+type c05PairCase struct {
+	Kind       string `json:"kind"`
+	First      string `json:"first"`
+	FirstType  uint16 `json:"first_type,omitempty"`
+	FirstLine  bool   `json:"first_as_log_line,omitempty"`
+	Second     string `json:"second"`
+	SecondType uint16 `json:"second_type,omitempty"`
+	SecondLine bool   `json:"second_as_log_line,omitempty"`
+}
+
+// cloneMap copies keys and values into fresh memory.
+func cloneMap(m map[string]string) map[string]string {
+	if m == nil {
+		return nil
+	}
+	o := make(map[string]string, len(m))
+	for k, v := range m {
+		o[strings.Clone(k)] = strings.Clone(v)
+	}
+	return o
+}
+
+var c05HexLines = []string{
+	`type=EXECVE msg=audit(1500000000.100:1): argc=2 a0=68656C6C6F20776F726C64 a1=7365636F6E6420617267`,
+	`type=EXECVE msg=audit(1500000000.100:2): argc=3 a0="ls" a1=2D6C2061 a2=2F746D702F612062`,
+	`type=PROCTITLE msg=audit(1500000000.100:3): proctitle=2F62696E2F7368002D63006563686F206869`,
+	`type=PATH msg=audit(1500000000.100:4): item=0 name=2F746D702F776974682073706163652F66 inode=5 dev=08:01 mode=0100644 ouid=0 ogid=0 rdev=00:00 nametype=NORMAL`,
+	`type=CWD msg=audit(1500000000.100:5): cwd=2F686F6D652F6D792064697220`,
+	`type=SYSCALL msg=audit(1500000000.100:6): arch=c000003e syscall=59 success=yes exit=0 a0=1 a1=2 a2=3 a3=4 items=2 ppid=1 pid=2 auid=1000 uid=0 gid=0 euid=0 suid=0 fsuid=0 egid=0 sgid=0 fsgid=0 tty=pts0 ses=1 comm=6D7920636F6D6D exe=2F6F70742F6D79206170702F62696E key=(null)`,
+	`type=SOCKADDR msg=audit(1500000000.100:7): saddr=01002F72756E2F6D7920736F636B657400`,
+	`type=SOCKADDR msg=audit(1500000000.100:8): saddr=020000357F0000010000000000000000`,
+	`type=USER_CMD msg=audit(1500000000.100:9): pid=1 uid=0 auid=1000 ses=1 msg='cwd=2F726F6F742F6D7920646972 cmd=6C73202D6C61202F746D70 terminal=pts/0 res=success'`,
+	`type=TTY msg=audit(1500000000.100:10): tty pid=1 uid=0 auid=1000 ses=1 major=136 minor=0 comm="bash" data=6C73202D6C0D`,
+	`type=SECCOMP msg=audit(1500000000.100:11): auid=1000 uid=0 gid=0 ses=1 pid=2 comm=6D7920636F6D6D exe=2F6F70742F6D79206170702F78 sig=31 arch=c000003e syscall=2 compat=0 ip=0x7f code=0x0`,
+	`type=EXECVE msg=audit(1500000000.100:12): argc=1 a0=5A5A5A5A5A5A5A5A5A5A5A5A5A5A5A5A5A5A5A5A5A5A5A5A5A5A5A5A5A5A5A5A`,
+	`type=AVC msg=audit(1500000000.100:13): avc:  denied  { read } for  pid=1 comm=6D7920636F6D6D name=6D792066696C65 dev="sda1" ino=2 scontext=u:r:t:s0 tcontext=u:object_r:o:s0 tclass=file`,
+}
+
+// c05Pairs: every ordered pair (and every triple A, B, A') of records whose values the parser hex-decodes: A is
+// parsed and decoded (deep copy kept), then B, then A's Data / Tags / ToMapStr are asked again.
+func c05Pairs(c *mon.Ctx) {
+	type snap struct {
+		m    *auparse.AuditMessage
+		data map[string]string
+		ms   map[string]interface{}
+	}
+	take := func(line string) *snap {
+		m, err := auparse.ParseLogLine(line)
+		if err != nil {
+			return nil
+		}
+		d, err := m.Data()
+		if err != nil {
+			return nil
+		}
+		return &snap{m: m, data: cloneMap(d), ms: deepCopyMapStr(m.ToMapStr())}
+	}
+	for i, a := range c05HexLines {
+		for j, b := range c05HexLines {
+			for _, third := range []int{-1, (i + j) % len(c05HexLines)} {
+				var sa *snap
+				p, st := mon.Try(func() {
+					sa = take(a)
+					take(b)
+					if third >= 0 {
+						take(c05HexLines[third])
+					}
+				})
+				k := &c05PairCase{Kind: "pair", First: a, FirstLine: true, Second: b, SecondLine: true}
+				if p != nil {
+					c.Violation("panic:"+mon.PanicSite(st), fmt.Sprintf("parser panicked on the pair: %v\n%s", p, st), k)
+					continue
+				}
+				if sa == nil {
+					c.Inconclusive("a hand-written hex record is rejected: " + a)
+					return
+				}
+				c.Add("evaluations", 1)
+				c.Add("hex_record_pairs", 1)
+				again, _ := sa.m.Data()
+				if !reflect.DeepEqual(again, sa.data) {
+					c.Violation("data-changed-by-later-message", fmt.Sprintf("Data() of %q changed after %q was parsed and decoded: was %v, now %v", clipStr(a, 120), clipStr(b, 120), sa.data, again), k)
+					continue
+				}
+				if ms := deepCopyMapStr(sa.m.ToMapStr()); !reflect.DeepEqual(ms, sa.ms) {
+					c.Violation("mapstr-changed-by-later-message", fmt.Sprintf("ToMapStr() of %q changed after %q was parsed and decoded: was %v, now %v", clipStr(a, 120), clipStr(b, 120), sa.ms, ms), k)
+				}
+			}
+		}
+	}
 }
 
 func copyMap(m map[string]string) map[string]string {
@@ -171,6 +289,7 @@ func init() {
 					c.Sample(map[string]any{"as_log_line": k.Line, "type": k.Type, "text": clipStr(k.Text, 160)})
 				}
 			}
+			c05Pairs(c)
 			c.ForEach(n, func(w, i int) {
 				r := c.Rand(1, uint64(i))
 				var line string
@@ -219,6 +338,32 @@ func init() {
 			c.Require("data_errors_observed", 100)
 		},
 		Replay: func(c *mon.Ctx, kase json.RawMessage) {
+			var pk c05PairCase
+			if json.Unmarshal(kase, &pk) == nil && pk.Kind == "pair" {
+				fmt.Printf("replay: pair\n  first  %q\n  second %q\n", pk.First, pk.Second)
+				parse := func(text string, typ uint16, line bool) *auparse.AuditMessage {
+					var m *auparse.AuditMessage
+					if line {
+						m, _ = auparse.ParseLogLine(text)
+					} else {
+						m, _ = auparse.Parse(auparse.AuditMessageType(typ), text)
+					}
+					return m
+				}
+				a := parse(pk.First, pk.FirstType, pk.FirstLine)
+				if a == nil {
+					return
+				}
+				d, _ := a.Data()
+				was := cloneMap(d)
+				if b := parse(pk.Second, pk.SecondType, pk.SecondLine); b != nil {
+					b.Data()
+				}
+				if again, _ := a.Data(); !reflect.DeepEqual(again, was) {
+					c.Violation("data-changed-by-later-message", fmt.Sprintf("was %v, now %v", was, again), &pk)
+				}
+				return
+			}
 			var k c05Case
 			if json.Unmarshal(kase, &k) != nil {
 				return
@@ -250,10 +395,16 @@ func deepCopyMapStr(m map[string]interface{}) map[string]interface{} {
 	out := make(map[string]interface{}, len(m))
 	for k, v := range m {
 		switch x := v.(type) {
+		case string:
+			out[k] = strings.Clone(x)
 		case []string:
-			out[k] = append([]string(nil), x...)
+			cp := make([]string, len(x))
+			for i := range x {
+				cp[i] = strings.Clone(x[i])
+			}
+			out[k] = cp
 		case map[string]string:
-			out[k] = copyMap(x)
+			out[k] = cloneMap(x)
 		case map[string]interface{}:
 			out[k] = deepCopyMapStr(x)
 		default:
